@@ -419,6 +419,60 @@ var Progs = []Prog{
 		<-child.Done()
 		return fmt.Sprintf("%v | %v | %v | %v", w.Err(), context.Cause(w), child.Err(), context.Cause(child))
 	}, []string{"wrapped: context deadline exceeded | too slow | wrapped: context deadline exceeded | too slow"}},
+	{"defer-close-and-go-builtin", func() string {
+		done := make(chan struct{})
+		res := make(chan int, 1)
+		go func() {
+			defer close(done) // the deferred call is the builtin itself
+			res <- 1
+		}()
+		<-done
+		gone := make(chan struct{})
+		go close(gone) // a go statement whose call is a builtin
+		<-gone
+		m := map[int]string{1: "a", 2: "b"}
+		func() {
+			defer delete(m, 1)
+		}()
+		return fmt.Sprint(<-res, len(m))
+	}, []string{"1 1"}},
+	{"range-without-key-and-select-lvalues", func() string {
+		c := make(chan int, 3)
+		c <- 1
+		c <- 2
+		c <- 3
+		close(c)
+		n := 0
+		for range c {
+			n++
+		}
+		type box struct{ f [2]int }
+		var b box
+		var ok bool
+		d := make(chan int, 1)
+		d <- 7
+		i := 1
+		select {
+		case b.f[i], ok = <-d:
+		}
+		e := make(chan int, 1)
+		var m = map[string]int{}
+		e <- 9
+		select {
+		case m["k"] = <-e:
+		default:
+		}
+	outer:
+		for k := 0; k < 3; k++ {
+			select {
+			case e <- k:
+				continue outer
+			default:
+				break outer
+			}
+		}
+		return fmt.Sprint(n, b.f[1], ok, m["k"], len(e))
+	}, []string{"3 7 true 9 1"}},
 }
 
 // Names lists the program names.
